@@ -17,7 +17,7 @@ def run(ctx: common.Ctx):
         'known finding D15: RawModel.detach cannot tell a free-standing node from a child spanning the whole '
         'store of its free-standing parent (C19_reuse_refused_refuted / _partial)']
     ctx.require_coq(['properties/C19'], extra_targets=['RepeatedRun'])
-    c03.run_slots(ctx, ('C19',), ctx.scale(150, 1500), 8)
+    c03.run_slots(ctx, ('C19',), ctx.scale(210, 1500), 8)
 
 
 def search(ctx: common.Ctx):
